@@ -5,13 +5,15 @@ package influxql
 // inserting a comment flanked by whitespace there, never changes the AST.
 // Bound: the statements listed below (one or more per statement kind and per
 // place where the parser looks at raw runes or raw tokens) x every gap that
-// contains whitespace x 11 replacements (incl. a 40-space run and a comment containing a comment opener), and every ordered pair of corpus statements in one query. Labelled bounded; never counted as proved.
+// contains whitespace x 12 replacements (incl. a 40-space run and a comment containing a comment opener), and every ordered pair of corpus statements in one query. Labelled bounded; never counted as proved.
 
 import (
 	"fmt"
 	"reflect"
 	"strings"
 	"testing"
+	"regexp"
+	"time"
 )
 
 func c16gaps(s string) [][2]int {
@@ -49,8 +51,93 @@ func c16gaps(s string) [][2]int {
 	return out
 }
 
+// structural comparison of two ASTs (compiled regexes by text, times as instants, memo fields skipped)
+func c16diff(path string, a, b reflect.Value) string {
+	if a.IsValid() != b.IsValid() {
+		return path + ": one side missing"
+	}
+	if !a.IsValid() {
+		return ""
+	}
+	if a.Type() != b.Type() {
+		return fmt.Sprintf("%s: %s vs %s", path, a.Type(), b.Type())
+	}
+	switch a.Kind() {
+	case reflect.Ptr:
+		if a.IsNil() || b.IsNil() {
+			if a.IsNil() != b.IsNil() {
+				return path + ": nil vs non-nil"
+			}
+			return ""
+		}
+		if ra, ok := a.Interface().(*regexp.Regexp); ok {
+			if rb := b.Interface().(*regexp.Regexp); ra.String() != rb.String() {
+				return fmt.Sprintf("%s: regex %q vs %q", path, ra.String(), rb.String())
+			}
+			return ""
+		}
+		if _, ok := a.Interface().(*time.Location); ok {
+			if a.Interface().(*time.Location).String() != b.Interface().(*time.Location).String() {
+				return path + ": location"
+			}
+			return ""
+		}
+		return c16diff(path, a.Elem(), b.Elem())
+	case reflect.Interface:
+		if a.IsNil() || b.IsNil() {
+			if a.IsNil() != b.IsNil() {
+				return path + ": nil vs non-nil"
+			}
+			return ""
+		}
+		return c16diff(path, a.Elem(), b.Elem())
+	case reflect.Struct:
+		if ta, ok := a.Interface().(time.Time); ok {
+			if !ta.Equal(b.Interface().(time.Time)) {
+				return path + ": time"
+			}
+			return ""
+		}
+		for i := 0; i < a.NumField(); i++ {
+			name := a.Type().Field(i).Name
+			if name == "groupByInterval" {
+				continue
+			}
+			if d := c16diff(path+"."+name, a.Field(i), b.Field(i)); d != "" {
+				return d
+			}
+		}
+		return ""
+	case reflect.Slice:
+		if a.Len() != b.Len() {
+			return fmt.Sprintf("%s: length %d vs %d", path, a.Len(), b.Len())
+		}
+		for i := 0; i < a.Len(); i++ {
+			if d := c16diff(fmt.Sprintf("%s[%d]", path, i), a.Index(i), b.Index(i)); d != "" {
+				return d
+			}
+		}
+		return ""
+	case reflect.Map:
+		return ""
+	case reflect.Func, reflect.Chan:
+		return ""
+	default:
+		if a.CanInterface() && b.CanInterface() {
+			if !reflect.DeepEqual(a.Interface(), b.Interface()) {
+				return fmt.Sprintf("%s: %v vs %v", path, a.Interface(), b.Interface())
+			}
+			return ""
+		}
+		if fmt.Sprint(a) != fmt.Sprint(b) {
+			return fmt.Sprintf("%s: %v vs %v", path, a, b)
+		}
+		return ""
+	}
+}
+
 func TestZZBoundedC16(t *testing.T) {
-	fmt.Println("BOUNDED-BOUND: 49 statements covering every statement family and every raw-rune / raw-token site x every whitespace gap x {tab, LF, CR, CRLF, two spaces, block comment, line comment, 40 spaces, comment containing a comment opener, line comment ended by a lone CR, comment whose text starts with a slash}; one query of 300 statements; every ordered pair of statements in one query, each compared with its parse alone")
+	fmt.Println("BOUNDED-BOUND: 63 statements covering every statement family and every raw-rune / raw-token site x every whitespace gap x {tab, LF, CR, CRLF, two spaces, block comment, line comment, 40 spaces, comment containing a comment opener, line comment ended by a lone CR, line comment without a space after the dashes, comment whose text starts with a slash}; one query of 300 statements; every ordered pair of statements in one query, each compared with its parse alone")
 	corpus := []string{
 		`SELECT mean(value) FROM cpu WHERE host = 'a' AND time > now() - 1h GROUP BY time(5m), host fill(none) ORDER BY time DESC LIMIT 5 OFFSET 2 SLIMIT 3 SOFFSET 1 tz('UTC')`,
 		`SELECT value INTO db1.rp1.out FROM db0.rp0.cpu WHERE value > 1.5`,
@@ -90,13 +177,17 @@ func TestZZBoundedC16(t *testing.T) {
 		`DROP SERIES FROM cpu WHERE host = 'a'`,
 		`DELETE FROM cpu WHERE time < '2000-01-01'`,
 		`DROP SHARD 3`,
+		`DROP MEASUREMENT cpu`, `DROP DATABASE db`, `DROP USER u`, `DROP RETENTION POLICY rp ON db`,
+		`DROP CONTINUOUS QUERY cq ON db`, `DROP SUBSCRIPTION s ON db.rp`, `REVOKE ALL PRIVILEGES FROM u`,
+		`SHOW CONTINUOUS QUERIES`, `SHOW SUBSCRIPTIONS`, `SHOW SHARD GROUPS`, `SHOW MEASUREMENT CARDINALITY`,
+		`SHOW TAG KEY CARDINALITY ON db`, `SHOW FIELD KEY CARDINALITY`, `SHOW TAG VALUES CARDINALITY WITH KEY = host`,
 		`KILL QUERY 4 ON "host"`,
 		`EXPLAIN ANALYZE SELECT value FROM cpu`,
 		`SELECT value FROM cpu ; SHOW DATABASES ; ; DROP SHARD 1 ;`,
 	}
 	repl := map[string]string{"tab": "\t", "lf": "\n", "cr": "\r", "crlf": "\r\n", "two-spaces": "  ", "block-comment": " /* c */ ", "line-comment": " -- c\n",
 		"long-spaces": strings.Repeat(" ", 40), "comment-with-opener": " /* a /* b */ ",
-		"line-comment-cr": " -- c\r", "comment-slash-first": " /*/ c */ "}
+		"line-comment-cr": " -- c\r", "line-comment-nospace": " --c\n", "comment-slash-first": " /*/ c */ "}
 	total, accepted := 0, 0
 	fails := map[string]int{}
 	first := map[string]string{}
@@ -130,7 +221,7 @@ func TestZZBoundedC16(t *testing.T) {
 		}
 		for _, g := range c16gaps(base) {
 			for name, r := range repl {
-				if name == "comment-with-opener" || name == "comment-slash-first" || name == "line-comment-cr" {
+				if name == "comment-with-opener" || name == "comment-slash-first" || name == "line-comment-cr" || name == "line-comment-nospace" {
 					// only where a plain comment is accepted (the raw-rune look-ahead sites are finding F-C16-1)
 					if _, err := ParseQuery(base[:g[0]] + repl["block-comment"] + base[g[1]:]); err != nil {
 						continue
@@ -191,9 +282,9 @@ func TestZZBoundedC16(t *testing.T) {
 				key = "pair:rejected:" + strings.Fields(a)[0]
 			case len(q.Statements) != 2:
 				key = "pair:statement-count:" + strings.Fields(a)[0]
-			case !reflect.DeepEqual(q.Statements[0], qa.Statements[0]) && q.Statements[0].String() != qa.Statements[0].String():
+			case c16diff("first", reflect.ValueOf(q.Statements[0]), reflect.ValueOf(qa.Statements[0])) != "":
 				key = "pair:first-differs-from-alone:" + strings.Fields(a)[0]
-			case !reflect.DeepEqual(q.Statements[1], qb.Statements[0]) && q.Statements[1].String() != qb.Statements[0].String():
+			case c16diff("second", reflect.ValueOf(q.Statements[1]), reflect.ValueOf(qb.Statements[0])) != "":
 				key = "pair:second-differs-from-alone:" + strings.Fields(b)[0]
 			default:
 				accepted++
@@ -221,7 +312,7 @@ func TestZZBoundedC16(t *testing.T) {
 		default:
 			good := true
 			for i, st := range long.Statements {
-				if st.String() != alone.Statements[0].String() {
+				if c16diff("stmt", reflect.ValueOf(st), reflect.ValueOf(alone.Statements[0])) != "" {
 					good = false
 					fails["long-query:statement-differs-from-alone"]++
 					first["long-query:statement-differs-from-alone"] = fmt.Sprintf("statement %d: %s", i, st.String())
